@@ -117,4 +117,32 @@ def monitor(ctx, extended=False):
               and B == Arel_to_beta[Cvs / Cvb])
         if not ok:
             ctx.violation('area/perimeter identity fails', {'Dp': Dp, 'Cvs': Cvs, 'areas': (Ap, A1, A2), 'perimeters': (Op, O1, O12, O2)}, key='identities')
+    # the bed packing is a module setting (`stratified.Cvb`, read at call time by the geometry functions and by the framework): with another packing the same
+    # clauses hold over Cvs in [0, packing] - the half-angle, the areas and the perimeters all use the packing that is set NOW
+    saved = St.Cvb
+    try:
+        for cvb2 in (0.55, 0.5, 0.65):
+            St.Cvb = cvb2
+            prevb = None
+            for k_ in range(0, 201):
+                a = k_ / 200
+                Cvs = cvb2 * a
+                Dp = E.pick_Dp(ctx.rng)
+                ctx.count('evaluations')
+                try:
+                    B = St.beta(Cvs)
+                    Ap, A1, A2 = St.areas(Dp, Cvs)
+                    Op, O1, O12, O2 = St.perimeters(Dp, Cvs)
+                except Exception as e:   # noqa
+                    ctx.violation(f'with bed packing {cvb2}: raised {type(e).__name__}: {e}', {'Dp': Dp, 'Cvs': Cvs, 'Cvb': cvb2}, key='identities')
+                    break
+                ok = (abs(seg(B) - a) < 0.0075 and rel_close(A2, Ap * a, 1e-9) and rel_close(A1 + A2, Ap, 1e-12) and rel_close(O1 + O2, Op, 1e-12)
+                      and rel_close(O12, Dp * math.sin(B), 1e-12) and rel_close(O2, Dp * B, 1e-9) and (prevb is None or B > prevb))
+                if not ok or (k_ == 200 and abs(B - math.pi) > 1e-7):
+                    ctx.violation(f'with bed packing {cvb2} set: at Cvs = {Cvs!r} (area fraction {a}) the half-angle {B!r} reproduces {seg(B)!r}, areas {(Ap, A1, A2)}, perimeters {(Op, O1, O12, O2)}',
+                                  {'Dp': Dp, 'Cvs': Cvs, 'Cvb': cvb2}, key='identities')
+                    break
+                prevb = B
+    finally:
+        St.Cvb = saved
     ctx.stats['distinct_nontrivial'] = N + 1 + len(nodes)
